@@ -18,6 +18,7 @@ PROP = dict(
          "go.adnl.concurrent: 2..16 goroutines x 5..40 packets calling Connection.Send on ONE connection at the same time "
          "(GOMAXPROCS >= 4): the independent server must receive intact frames carrying exactly the multiset sent, per-goroutine "
          "order kept, and the wire bytes must equal the model's single continuous cipher over the frames in arrival order. "
+         "go.adnl.magics: payloads BEGINNING with each TL magic the client treats specially (pong, ping, query, answer, auth nonce / authentificate / complete, key-id prefix) at lengths 3,4,8,11,12,13,16,64 in random order: Responses() must yield exactly what the model's Connection.reader forwards (theorem only_pong_consumed: only a 12-byte tcp.pong and tcp.authentificationNonce messages are kept). "
          "go.adnl.coalesced: the server writes the handshake confirmation and the first 1..6 packets in ONE Write, or cut at "
          "every byte position 0..140 (inside / right behind the confirmation) and at random later positions: every packet must "
          "come out of Responses(). thorough adds the 8 MiB-64 / 8 MiB-63 payloads once.",
